@@ -2340,9 +2340,9 @@ theorem updateInterrupted_frame (e e2 : Engine) (hi : e.updateInterrupted = some
     · cases hi
 
 /-- **`handle_network_event_connection_closed` keeps the invariant and leaves a clean Disconnected engine.** -/
-theorem handleClosed_inv (e : Engine) (hinv : Inv e) : Inv e.handleClosed.1 := by
+theorem handleClosedCore_inv (e : Engine) (hinv : Inv e) : Inv e.handleClosedCore.1 := by
   obtain ⟨hok, h, hD, hS⟩ := hinv
-  unfold Engine.handleClosed
+  unfold Engine.handleClosedCore
   split
   · exact ⟨hok, h, hD, hS⟩
   · simp only []
@@ -4327,6 +4327,29 @@ theorem processAckTimeouts_hk : ∀ (fuel : Nat) (e : Engine), HK e (Engine.proc
       · exact HK.refl _
 
 theorem HK.sv {e e' : Engine} (h : HK e e') : SV e e' := SV.of_qv h.qv
+
+theorem processAckTimeouts_nil (fuel : Nat) (e : Engine) (h : e.timeouts = []) : Engine.processAckTimeouts fuel e = (e, .ok) := by
+  cases fuel with
+  | zero => rfl
+  | succ f =>
+    unfold Engine.processAckTimeouts
+    have : e.nextDueTimeout = none := by unfold Engine.nextDueTimeout; rw [h]; rfl
+    rw [this]
+
+theorem handleClosed_inv (e : Engine) (hinv : Inv e) : Inv e.handleClosed.1 := by
+  unfold Engine.handleClosed
+  split
+  · exact hinv
+  · rename_i hd
+    have hnd : e.state ≠ .disconnected := by simpa using hd
+    have hk := ((processAckTimeouts_hk (e.timeouts.length + 1) e).inv hinv hnd).1
+    generalize Engine.processAckTimeouts (e.timeouts.length + 1) e = x0 at hk ⊢
+    obtain ⟨ea, ra⟩ := x0
+    simp only [] at hk ⊢
+    have h1 := handleClosedCore_inv ea hk
+    generalize ea.handleClosedCore = x1 at h1 ⊢
+    obtain ⟨eb, rb⟩ := x1
+    exact h1
 
 /-- `service`, the work by state -/
 theorem serviceCore_out (e : Engine) (cap prefill : Nat) (hok : e.core.Ok) (h : Big [] [] e.view) :
